@@ -241,6 +241,21 @@ def c03(tier):
     for r in xr:
         chk.count(hashlib.sha1(bytes(r['bytes'])).hexdigest())
     chk.traces += judge_bytecode(chk, xr, wd, 'c03b', names, {'loads', 'loaded_same', 'loaded_layout', 'loaded_labels', 'resave_same'})
+    # shapes of CODE no compiler emits but the format allows (every instruction pair over a valid + invalid alphabet, e.g. a jump to the label that follows it;
+    # entry method first; duplicate label texts; the entry among the globals): loading and saving them again must be the identity too
+    gen2 = []
+    for mod, env in (('MC_InstrSeqs', {'SEQLEN': '2'}), ('MC_DupLabels', {}), ('MC_EntryCall', {})):
+        rg = tlc_or_die(mod, env=env, workers=4, timeout=900)
+        chk.add_tlc(rg)
+        gen2 += [{'name': '%s:%s' % (mod, json.dumps(g.get('seq', g.get('v')), sort_keys=True)), 'bytes': g['bytes']} for g in rg.lines.get('REPLAY', [])]
+    youts = run_harness(exe, 'exec', [{'id': i, 'bytes': g['bytes'], 'want': ['prog2', 'bytes2']} for i, g in enumerate(gen2)], wd, tag='c03y')
+    for i, o in enumerate(youts):
+        o['bytes'] = gen2[i]['bytes']
+    yr = bytecode_records(youts, with_prog=False)
+    for r in yr:
+        chk.count(hashlib.sha1(bytes(r['bytes'])).hexdigest())
+    chk.traces += judge_bytecode(chk, yr, wd, 'c03y', [{'name': g['name'], 'text': None} for g in gen2], {'loads', 'loaded_same', 'loaded_layout', 'loaded_labels', 'resave_same'})
+    chk.notes['code_shapes_no_compiler_emits'] = len(gen2)
     nbig = big_files_via_cli(chk, exe, wd, huge_pool=True)
     chk.notes['large_files_through_cli'] = nbig
     chk.notes['spec_generated_programs'] = len(gen)
